@@ -59,5 +59,45 @@ TEXT = {
         "level": "Sampled exploration of dictionaries x line histories (empty lines, repeats, trailing spaces); thorough also drives the real compile/reorder/map/tokenize CLIs.",
         "note": "The verdict follows the reference recount; the event log is evidence (an implementation may cache evaluations).",
     },
+    "C10": {
+        "technique": "runtime monitor: outcome classifier over structure-aware single-edit corruptions + differential semantics against strict reference parsers; debug-assertion and ASan flavours",
+        "level": "Sampled exploration of the neighbourhood of valid file sets (one edit of one file), every builder entry point, plus adversarial tokenization of whatever is accepted.",
+        "note": "Semantic agreement is judged only when the strict reference parsers accept the same files. The uncovered-category panic is a listed known finding (shared with C01).",
+    },
+    "C14": {
+        "technique": "runtime monitor: emitted files re-derived from the hooked model view; monotonicity; real builder on the output",
+        "level": "Sampled exploration of training configurations (real trainer runs), every emitted row checked.",
+        "note": "rucrf's merge is trusted; floating point accepts either association order of the scaling formula.",
+    },
+    "C15": {
+        "technique": "runtime monitor: byte comparison of files generated before/after write_model/read_model over operation sequences",
+        "level": "Sampled exploration of trained models x operation sequences.",
+        "note": "bigram.cost is compared as a multiset (hash-map order).",
+    },
+    "C16": {
+        "technique": "runtime monitor: all-pairs comparison of real connectors compiled from the two emitted file sets (matrix vs raw vs dual), portable and AVX2",
+        "level": "Sampled exploration of trained models; every id pair of each is compared.",
+        "note": "K is the number of BIGRAM templates of the configuration.",
+    },
+    "C17": {
+        "technique": "runtime monitor: function hook vs linear-scan reference; small scope enumerated completely, larger scopes sampled",
+        "level": "Exhaustive over the stated small scope (8420 rule lists x 85 feature lists), sampled beyond it.",
+        "note": "The hook runs the real parser and the real trie matcher; only the reference is mine.",
+    },
+    "C18": {
+        "technique": "runtime monitor: function hook vs independent template expander; trained dictionaries' ids and bigram.left/right rows vs independent expansion + rewrite reference",
+        "level": "Sampled exploration at both levels.",
+        "note": "Uses C17's reference for the rewrite step.",
+    },
+    "C19": {
+        "technique": "runtime monitor: structured corpus vs parse/write/re-parse; real compile+tokenize CLI output parsed as a corpus and compared with in-process tokens",
+        "level": "Sampled exploration of corpora; a few hundred CLI round trips per run.",
+        "note": "The CLIs are rebuilt from /repo's working tree by the check.",
+    },
+    "C20": {
+        "technique": "runtime monitor: independent MeCab-model evaluator vs connectors compiled from generate_bigram_info's output (all non-zero id pairs); outcome classifier for invalid id tables",
+        "level": "Sampled exploration of model descriptions.",
+        "note": "Shares the template expander with C18, no code with the extractor under test.",
+    },
 }
 NOT_APPLICABLE = []
